@@ -8,7 +8,11 @@ from common import sh2
 LEVEL = "proof"
 MANIFEST = {
     "technique": "Coq proof over Gallina models of the separately written pairs (framing AND the leaf decoder pairs trun, senc, mdat, "
-                 "stsd, visual sample entry, each decoder transcribed from its own Go text) + generated registry facts + differential "
+                 "stsd, visual sample entry, each decoder transcribed from its own Go text) + a generic delegation theorem instantiated for "
+                 "every pair that a go/ast + go/types source-fact extractor, re-run on every check, classifies as delegating with a "
+                 "position-relative SR decoder (facts written to coq/c03/C03Facts.v and decided by vm_compute theorems; the extractor is "
+                 "re-tested on every run against a hand-checked table, 16 hand rewrites of a scratch copy of the sources and the reader "
+                 "methods observed at run time) + generated registry facts + differential "
                  "correspondence (extracted OCaml vs Go: decoded fields, sizes, positions, outcome classes) + the property itself "
                  "evaluated on testdata files, harvested and generated boxes and mutants (structural comparison of the two decodings)",
     "level_text": "PROVED for all inputs (coq/c03/C03Theorems.v): EncodeContainer = EncodeContainerSW on every container tree and "
@@ -37,17 +41,45 @@ MANIFEST = {
                   "decoder on a private reader) is sound for EVERY SR decoder that is a decision tree of position-relative reader operations "
                   "(C03_delegate_sound, C03_prog_pair_agree over the C04 FixedSliceReader model); instantiated for mfhd, tfdt (both written twice in "
                   "Go) and tfhd (C03_fragment_progs_local, C03_mfhd_pair_agree), whose programs are tied to the Go code by the P lines; for the "
-                  "other delegating decoders, that they are such programs is not established by the check. "
+                  "other delegating decoders see ALL PAIRS below. "
                   "The key sets of decoders and decodersSR "
                   "are equal (C03_registry, regenerated from the hook on every run). "
-                  "EXPLORED only: the remaining ~125 leaf decoder pairs (most reader-path decoders read the body and delegate to the SR "
-                  "decoder) and the remaining leaf ENCODER pairs, i.e. the hypothesis `leaves agree` of the encode theorems: both paths are run on "
+                  "ALL PAIRS, from the sources on every run (C03_all_pairs_classified, C03_facts_cover_registry, C03_kinds_match over the "
+                  "generated coq/c03/C03Facts.v): each of the 134 registered box types has a reader-path decoder that is (i) DELEGATING - "
+                  "exactly [guards on the header alone, repeated at the start of the SR decoder;] data, err := readBoxBody(r, hdr); if err != "
+                  "nil { return nil, err }; sr := bits.NewFixedSliceReader(data); return S(hdr, startPos, sr) with S the decoder registered in "
+                  "decodersSR under the same key - and S uses its reader only through position-relative operations (73 types: "
+                  "C03_delegate_sound_ext / C03_delegating_pair_agree, proved once for all extended reader programs: ReadUintN/IntN, ReadBytes, "
+                  "ReadFixedLengthString with any count, zero-terminated strings with a count below 2^62, SkipBytes, AccError, positions relative "
+                  "to the entry; buffers below 2^61 bytes), or delegating and named (visual sample entry: its pair theorem; emsg esds evte meta "
+                  "sgpd stpp trep wvtt: explored); (ii) a CONTAINER TWIN - the same text around DecodeContainerChildren / ...SR (17 types: "
+                  "the container kind of C03_decode_agree_canonical; edts sinf stbl, whose SR decoder also returns sr.AccError(): explored) or "
+                  "moov/moof (reader path reads the body and runs the SR text on it: KContBody with the extracted flag); (iii) SEPARATELY "
+                  "WRITTEN and named in the theorem: trun senc mdat stsd mfhd tfdt (pair theorems) or explored (audio sample entry, av1C avcC "
+                  "dac3 dec3 dref hvcC styp vttc); free skip cdat are RAW-BODY pairs (readBoxBody vs ReadBytes(payloadLen)+AccError into the same "
+                  "box: the opaque leaf of C03_std_canon_leaf), emeb vtte PURE TWINS (same text, reader untouched). A reader-path decoder rewritten by hand, an SR decoder that "
+                  "starts using GetPos / RemainingBytes / LookAhead ..., a guard present on one path only, or a type registered with another "
+                  "SR decoder leaves its class: the theorem fails and the check names the box type, the function and the reason. ENCODERS "
+                  "(C03_all_encoders_classified): of the 112 types with Encode and EncodeSW, 76 Encode methods are exactly `sw := "
+                  "NewFixedSliceWriter(int(b.Size())); err := b.EncodeSW(sw); ...; w.Write(sw.Bytes())` (C03_enc_delegate_agree: equal bytes "
+                  "provided Size() covers what EncodeSW writes; C03_enc_delegate_size_needed: the proviso is needed), 18 are EncodeContainer / "
+                  "EncodeContainerSW and 2 EncodeHeader / EncodeHeaderSW alone (C03_box_encode_agree), File MediaSegment Fragment InitSegment are "
+                  "the same text twice (C03_encode_agree); Av1CBox HvcCBox MoofBox (same text twice) and AudioSampleEntryBox DrefBox MetaBox "
+                  "SencBox TrepBox WvttBox are named as explored. "
+                  "NOT PROVED: that a Go SR decoder classified position-relative IS one of the reader programs the theorem quantifies over "
+                  "(the extractor's claim: every use of the reader parameter, transitively through callees, is a listed method; counts bounded "
+                  "as stated in harness/c03/srcfacts.go) - tested by the table, the rewrites and the run-time probe, and for tfhd by the P lines. "
+                  "EXPLORED only: the named pairs above and the remaining leaf ENCODER pairs, i.e. the hypothesis `leaves agree` of the encode "
+                  "theorems: both paths are run on "
                   "every testdata file, every harvested box, generated trun/senc/mdat/stsd/sample-entry boxes, every box kind and every "
                   "file with 16-byte-header boxes before/between/after fragments, and their structured mutants; whenever one path accepts "
                   "and reproduces the input exactly the other must accept with an equal Info dump, field-by-field equal structure "
                   "(nil == empty, unexported fields included), equal Size of every box, LargeSize/StartPos of mdat, StartPos of "
                   "moof/fragments/segments, the same re-encoding, and Encode/EncodeSW must give equal bytes or both fail.",
-    "level_note": "Trusted: Coq kernel, extraction, OCaml/Go glue, the hooks mp4.VerifDecoderKeys / mp4.VerifC03SencRaw. Models tied to /repo by "
+    "level_note": "Trusted: Coq kernel, extraction, OCaml/Go glue, the hooks mp4.VerifDecoderKeys / mp4.VerifC03SencRaw, the source-fact extractor "
+                  "harness/c03/srcfacts.go (go/parser + go/types, standard library only; shapes and the position-relative class are defined at its "
+                  "top; files with //go:build verif are not analysed; termination of the decoders is assumed) and the hand-maintained lists of "
+                  "coq/c03/C03FactsDefs.v. Models tied to /repo by "
                   "correspondence on generated inputs only: shape lists (incl. largesize mdat / unknown boxes) through both file loops; "
                   "decoded File structures with per-box encodings against File.Encode/EncodeSW bytes; box trees and byte-level files with "
                   "16-byte headers through both decoders (B, L); decoded fields, Size, bytes consumed and AccError of both decoders of "
@@ -114,9 +146,10 @@ EXPECT_DEC = {
     # separately written
     "trun": ("DecodeTrun", "separate", True), "senc": ("DecodeSenc", "separate", True), "mdat": ("DecodeMdat", "separate", True),
     "stsd": ("DecodeStsd", "separate", False), "mfhd": ("DecodeMfhd", "separate", True), "tfdt": ("DecodeTfdt", "separate", True),
-    "free": ("DecodeFree", "separate", True), "avcC": ("DecodeAvcC", "separate", True), "dref": ("DecodeDref", "separate", False),
+    "free": ("DecodeFree", "raw-body", True), "skip": ("DecodeFree", "raw-body", True), "cdat": ("DecodeCdat", "raw-body", True),
+    "vtte": ("DecodeVtte", "pure-twin", True), "emeb": ("DecodeEmeb", "pure-twin", True), "avcC": ("DecodeAvcC", "separate", True), "dref": ("DecodeDref", "separate", False),
     "mp4a": ("DecodeAudioSampleEntry", "separate", False), "vttc": ("DecodeVttc", "separate", False), "styp": ("DecodeStyp", "separate", True),
-    "cdat": ("DecodeCdat", "separate", True), "dac3": ("DecodeDac3", "separate", True),
+    "dac3": ("DecodeDac3", "separate", True), "hvcC": ("DecodeHvcC", "separate", True),
 }
 EXPECT_ENC = {
     "BtrtBox": "delegating", "TrunBox": "delegating", "TfhdBox": "delegating", "FtypBox": "delegating", "MvhdBox": "delegating",
@@ -161,6 +194,12 @@ MUTATIONS = [
     ("kind-sr-unbounded-string", "mp4/kind.go", "\tmaxLen := hdr.payloadLen() - 4 - 1\n",
      "\tmaxLen := int(hdr.Size)\n",
      "dec", "kind", ("delegating", False)),
+    ("free-sr-reads-less", "mp4/free.go", "notDecoded: sr.ReadBytes(hdr.payloadLen())}", "notDecoded: sr.ReadBytes(hdr.payloadLen() - 0)}",
+     "dec", "free", ("separate", None)),
+    ("emeb-guard-differs", "mp4/eventmessage.go",
+     "func DecodeEmebSR(hdr BoxHeader, startPos uint64, sr bits.SliceReader) (Box, error) {\n\tif hdr.Size != 8 {",
+     "func DecodeEmebSR(hdr BoxHeader, startPos uint64, sr bits.SliceReader) (Box, error) {\n\tif hdr.Size < 8 {",
+     "dec", "emeb", ("separate", None)),
     ("dinf-twin-skips-a-child", "mp4/dinf.go", "\tfor _, b := range l {\n\t\td.AddChild(b)\n\t}",
      "\tfor _, b := range l[:len(l)-0] {\n\t\td.AddChild(b)\n\t}",
      "dec", "dinf", ("separate", None)),
@@ -215,7 +254,7 @@ def dec_coverage(d, L):
         if not d["accerr"]:
             return True, "framing"
         return d["R"] in L["c03_twin_accerr_explored"], "explored"
-    if c == "container-body":
+    if c in ("container-body", "pure-twin", "raw-body"):
         return True, "framing"
     if d["R"] in L["c03_separate_proved"]:
         return True, "pair-theorem"
@@ -314,7 +353,7 @@ def run_mutations(ctx, exe, decs0, encs0):
     base_dec = {d["key"]: class_str(d) for d in decs0}
     base_enc = {e["type"]: e["class"] for e in encs0}
     pre = {"btrt": "delegating", "tfhd": "delegating", "stts": "delegating", "mvhd": "delegating", "ftyp": "delegating", "CoLL": "delegating",
-           "colr": "delegating", "kind": "delegating", "dinf": "container-twin", "moov": "container-body",
+           "colr": "delegating", "kind": "delegating", "free": "raw-body", "emeb": "pure-twin", "dinf": "container-twin", "moov": "container-body",
            "BtrtBox": "delegating", "DinfBox": "container", "MoofBox": "twin"}
     base = os.path.join(common.BUILD, "c03-mut-%d" % os.getpid())
     res = {"applied": 0, "detected": 0, "skipped": 0, "results": [], "missed": []}
@@ -389,10 +428,14 @@ def run(ctx):
         "model: coq/c03/C03LeafModel.v (trun.go DecodeTrun/DecodeTrunSR, senc.go DecodeSenc/DecodeSencSR, mdat.go DecodeMdat/DecodeMdatSR, "
         "stsd.go DecodeStsd/DecodeStsdSR, visualsampleentry.go DecodeVisualSampleEntry/...SR) is a hand transcription, one Gallina function per Go function",
         "hook: /repo/mp4/verif_c03.go VerifDecoderKeys (add-only, build tag verif); coq/c03/C03Registry.v generated from it",
+        "source facts: harness/c03/srcfacts.go classifies every registered decoder pair and every Encode/EncodeSW pair from the sources "
+        "(coq/c03/C03Facts.v generated from it on every run); the classes it accepts are syntactic shapes, the step from `only listed reader "
+        "methods are used` to `is a local reader program` is not machine-checked; policy lists in coq/c03/C03FactsDefs.v are hand-maintained",
     ]
     ctx.assumptions += [
         "leaves encode identically through Encode and EncodeSW (hypothesis of the encode theorems; explored for the real leaves)",
-        "leaf decoder pairs other than trun, senc, mdat, stsd, visual sample entry: hypothesis `canonical leaf` of the decode theorems (explored)",
+        "leaf decoder pairs named as explored in C03_all_pairs_classified: hypothesis `canonical leaf` of the decode theorems (explored); "
+        "delegating pairs: the theorem needs the private run to end without accumulated error and buffers below 2^61 bytes",
         "the slice writer handed to EncodeSW is large enough; io.Writer never fails",
         "file-level decode agreement is stated for default options (DecodeFileSR has no ISM / lazy support)",
     ]
